@@ -23,13 +23,15 @@ package main
 //	                          minimal | every non-ASCII rune as \uXXXX (surrogate pairs) | encoding/json style)
 //	tree tokens (prefix form): O<n> then n×(k<hexkey> value) | A<n> then n values | s<hex> | n<tok>~<jtok> | t | f | z
 //	  <tok> is the JSON number token that is sent; <jtok> is the ABSTRACTION of encoding/json's float64
-//	  reading + re-rendering of that token (what a handler that decodes into interface{} and marshals again
-//	  hands to the flattener), computed by the generator with strconv and re-checked by Exec ("abstraction-drift").
+//	  rendering of that token (what OTLP hands to the flattener for a double: DoubleValue → json.Marshal; Splunk HEC and
+//	  Loki did the same to EVERY number before they were repaired to decode with UseNumber), computed by the generator
+//	  with strconv and re-checked by Exec ("abstraction-drift").
 //
 // Where the tree goes (the projection to what each protocol can express):
 //	es      the document IS the tree (member order as generated) — eswriter.HandleBulkBody
 //	esdoc   the same document through the single-document API — eswriter.ProcessPutPostSingleDocRequest (sets `_id` itself;
-//	        panics after ingesting when the root `_type`/`_index` is not a string: known finding content/esdoc-panic)
+//	        before the repair it panicked after ingesting when the root `_type`/`_index` was not a string: detector
+//	        content/esdoc-panic stays)
 //	hec     {"time":1700000000.123,"host":…,"source":…,"sourcetype":…,"index":…,"event":T,"fields":P} with P = the root
 //	        members of T whose value is a string — splunk.ProcessSplunkHecIngestRequest
 //	loki    stream labels = P (labels are string→string), line = M, third element of the value (structured
